@@ -670,6 +670,33 @@ V("s-wrap-ckbs-plain-dict", "silent", ["C10"], MV, "        order = OrderedDict(
 V("f-wrap-base-signature-literal", "fire", ["C10"], MV, "        bb = BeliefBase(self.signature, conditionals, name)\n", "        bb = BeliefBase(sorted(self.sigcheck), conditionals, name)\n", rules={"C10": ["WRAP.chain"]}, note="the atoms that occur instead of the declared ones")
 V("f-wrap-parseckb-normalise", "fire", ["C10"], WR, "    tree = _getParseTree(ckbs_string)\n", "    tree = _getParseTree(\"\\n\".join(l.rstrip() for l in ckbs_string.splitlines()) + \"\\n\")\n", rules={"C10": ["REJECT.input"]}, note="round 7 (C10-18): splitlines splits at more than CR and LF")
 
+CI7 = "inference/c_inference.py"
+IM7 = "inference/inference_manager.py"
+PO7 = "inference/preocf.py"
+INF7 = "inference/inference.py"
+V("s-caeq-skip-f-when-v-empty", "silent", ["C05", "C14", "C17"], CI7,
+  "            if conditional is transformed_conditionals[0]:\n                vMin = xMins_lst\n            else:\n                fMin = xMins_lst\n",
+  "            if conditional is transformed_conditionals[0]:\n                vMin = xMins_lst\n                if not vMin:\n                    return [], (perf_counter_ns() / (1e6) - start_time)\n            else:\n                fMin = xMins_lst\n",
+  note="round 7: no verifying correction set: not entailed whatever the falsifying side is - the second enumeration may be skipped")
+V("f-caeq-skip-f-when-v-nonempty", "fire", ["C05", "C14"], CI7,
+  "            if conditional is transformed_conditionals[0]:\n                vMin = xMins_lst\n            else:\n                fMin = xMins_lst\n",
+  "            if conditional is transformed_conditionals[0]:\n                vMin = xMins_lst\n                if vMin:\n                    break\n            else:\n                fMin = xMins_lst\n",
+  rules={"C05": ["C.query-edges"], "C14": ["C.query-edges"]}, note="the falsifying side never computed although the verifying one is not empty")
+V("s-state-literal-dict", "silent", ["C01", "C02", "C06"], IM7,
+  "    epistemic_state: dict[str, Any] = {}\n\n    epistemic_state[\"belief_base\"] = belief_base\n",
+  "    epistemic_state: dict[str, Any] = {\"belief_base\": belief_base}\n\n", note="the first slot in the literal")
+V("f-state-weakly-constant", "fire", ["C01", "C02"], IM7, "    epistemic_state[\"weakly\"] = weakly\n", "    epistemic_state[\"weakly\"] = bool(smt_solver) and weakly is True and False\n",
+  rules={"C01": ["STATE.slots"]}, note="the mode slot does not carry the argument")
+V("s-custom-init-conditional-expr", "silent", ["C18"], PO7,
+  "            signature or (belief_base.signature if belief_base else None),\n",
+  "            signature if signature else (belief_base.signature if belief_base is not None else None),\n", note="the same choice spelled out")
+V("f-custom-init-base-first", "fire", ["C18"], PO7,
+  "            signature or (belief_base.signature if belief_base else None),\n",
+  "            (belief_base.signature if belief_base else None) or signature,\n", rules={"C18": ["CUSTOM.init"]}, note="the base's signature wins over the explicit one")
+V("s-setstate-setattr-loop", "silent", ["C20"], PO7, "        self.__dict__.update(state)\n", "        for key, value in state.items():\n            setattr(self, key, value)\n", note="attribute by attribute")
+V("s-terminated-row-int-zero", "silent", ["C13", "C14"], INF7, "                        0.0,\n", "                        0,\n", note="an integer is a number too")
+V("f-terminated-row-nan-string", "fire", ["C13", "C14"], INF7, "                        0.0,\n", "                        \"n/a\",\n", rules={"C14": ["TIMEOUT.row"]}, note="a text in the time column")
+
 
 def main():
     hv = os.path.join(HERE, "harvested.json")
